@@ -35,7 +35,8 @@ GRAPH = {
     # N, Fills, NPats, Confl, Ops
     "quick": [(4, '"zero", "tmpl"', 2, "TRUE", '"join", "unjoin", "select", "slice", "concat"')],
     "thorough": [
-        (4, '"zero", "sym", "num", "tmpl"', 3, "TRUE", '"join", "unjoin", "select", "slice", "concat", "subs"'),
+        (4, '"zero", "sym", "num", "tmpl"', 3, "TRUE", '"join", "unjoin", "select", "slice", "concat"'),
+        (3, '"zero", "sym", "num", "tmpl"', 3, "TRUE", '"join", "unjoin", "select", "slice", "concat", "subs"'),
         (5, '"zero"', 3, "TRUE", '"join", "unjoin", "select", "slice", "concat"'),
     ],
 }
@@ -53,7 +54,8 @@ HIST = {
         (5, 2, '"tmpl"', 1, '"join", "unjoin"'),
     ],
 }
-SIM = {"thorough": (5, 6, '"zero", "sym", "num", "tmpl"', 5, None)}
+SIM = {"thorough": (5, 6, '"sym", "tmpl"', 5, None)}  # TLC's simulator expands every successor: keep the fan-out moderate
+SIM_TRACES = 600
 ALLOPS = '"join", "unjoin", "select", "slice", "concat", "subs"'
 
 
@@ -671,7 +673,7 @@ def main(tier: str, seed: int) -> int:
             f_graphs = [ex.submit(later, 1.2 + 0.2 * i, _tlc_graph, d, g, i, 6000, workers=6 if th else 5) for i, g in enumerate(GRAPH[tier])]
             f_sim = None
             if th:
-                f_sim = ex.submit(later, 2.0, _tlc_hist, d, SIM[tier], 3000, "num=8000", 8, seed, workers=4)
+                f_sim = ex.submit(later, 2.0, _tlc_hist, d, SIM[tier], 3000, f"num={SIM_TRACES}", 8, seed, workers=4)
             core.use_repo()
             import pharmpy.model  # noqa: F401
             import pharmpy.modeling  # noqa: F401
@@ -704,7 +706,7 @@ def main(tier: str, seed: int) -> int:
                 sim = [dict(c, mode="sim") for tag, c in rs.prints if tag == "CASE"]
                 rs.out, rs.prints = "", []
                 v.add_coverage(simulated_histories=len(sim), transitions=rs.generated)
-                kinds |= _run_hist(v, tier, rng, sim, "random histories of 6 operations, N=5")
+                kinds |= _run_hist(v, tier, rng, sim, f"{SIM_TRACES} random histories of 6 operations, N=5")
             need = {"join", "unjoin", "select", "slice", "subs_param", "subs_name", "concat", "concat_badlevel"}
             if not need <= kinds:
                 raise core.MachineryError(f"history cases lack operations {need - kinds} (vacuous)")
